@@ -66,6 +66,8 @@ enum S {
     Hint(String, Vec<(S, S)>),
     /// the silent undefined (`(1 if false)` evaluated through the expression API)
     USilent,
+    /// a `namespace(..)` object (Map repr, `Enumerator::Values` of its keys in key order); string keys only
+    Ns(Vec<(S, S)>),
 }
 
 #[derive(Debug)]
@@ -217,7 +219,7 @@ fn has_invalid(s: &S) -> bool {
     match s {
         S::Inv(_) => true,
         S::Seq(xs) | S::Tuple(xs) | S::Iter(xs, _) | S::OSeq(xs) | S::Once(xs) => xs.iter().any(has_invalid),
-        S::Map(ps) | S::OMap(ps) | S::Hint(_, ps) => ps.iter().any(|(k, v)| has_invalid(k) || has_invalid(v)),
+        S::Map(ps) | S::OMap(ps) | S::Hint(_, ps) | S::Ns(ps) => ps.iter().any(|(k, v)| has_invalid(k) || has_invalid(v)),
         _ => false,
     }
 }
@@ -226,7 +228,7 @@ fn volatile(s: &S) -> bool {
     match s {
         S::Once(_) => true,
         S::Seq(xs) | S::Tuple(xs) | S::Iter(xs, _) | S::OSeq(xs) => xs.iter().any(volatile),
-        S::Map(ps) | S::OMap(ps) | S::Hint(_, ps) => ps.iter().any(|(k, v)| volatile(k) || volatile(v)),
+        S::Map(ps) | S::OMap(ps) | S::Hint(_, ps) | S::Ns(ps) => ps.iter().any(|(k, v)| volatile(k) || volatile(v)),
         _ => false,
     }
 }
@@ -286,6 +288,12 @@ fn build(s: &S) -> Value {
             let env = Environment::new();
             env.compile_expression("(1 if false)").unwrap().eval(()).unwrap()
         }
+        S::Ns(ps) => {
+            // the engine's own `namespace(dict)` function builds the object
+            let env = Environment::new();
+            let d = Value::from_pairs(ps.iter().map(|(k, v)| (build(k), build(v))));
+            env.compile_expression("namespace(d)").unwrap().eval(context! { d => d }).unwrap()
+        }
     }
 }
 
@@ -332,6 +340,10 @@ fn enc(s: &S) -> String {
             }
         }
         S::USilent => "us".into(),
+        S::Ns(ps) => format!(
+            "{{#{}}}",
+            ps.iter().map(|(k, v)| format!("{}:{}", enc(k), enc(v))).collect::<Vec<_>>().join(",")
+        ),
     }
 }
 
@@ -400,6 +412,10 @@ fn dec(src: &str) -> S {
                 if omap {
                     *i += 1;
                 }
+                let ns = b[*i] == b'#';
+                if ns {
+                    *i += 1;
+                }
                 let mut hint_cfg: Option<String> = None;
                 if b[*i] == b'@' {
                     hint_cfg = Some(std::str::from_utf8(&b[*i + 1..*i + 5]).unwrap().to_string());
@@ -407,7 +423,7 @@ fn dec(src: &str) -> S {
                 }
                 let mk = move |ps: Vec<(S, S)>| match &hint_cfg {
                     Some(c) => S::Hint(c.clone(), ps),
-                    None => if omap { S::OMap(ps) } else { S::Map(ps) },
+                    None => if ns { S::Ns(ps) } else if omap { S::OMap(ps) } else { S::Map(ps) },
                 };
                 let mut ps = vec![];
                 if b[*i] == b'}' {
@@ -643,6 +659,14 @@ fn zoo(thorough: bool) -> Vec<S> {
     z.push(m(vec![(S::F(0x7ff8_0000_0000_0000), i(1)), (S::F(0x7ff8_0000_0000_0000), i(2))]));
     z.push(m(vec![(i(1), i(1)), (fbits(1.0), i(2))]));
     z.push(m(vec![(fbits(1.0), i(1)), (S::U64(1), i(2))]));
+    // namespace objects (a map object that keeps its keys in key order whatever the insertion order)
+    z.push(S::Ns(vec![]));
+    z.push(S::Ns(vec![(s0("a"), i(1)), (s0("b"), i(2))]));
+    z.push(S::Ns(vec![(s0("b"), i(2)), (s0("a"), i(1))]));
+    z.push(S::Ns(vec![(s0("a"), fbits(1.0)), (S::Str("b".into(), 1), S::U64(2))]));
+    z.push(S::Ns(vec![(s0("a"), i(2)), (s0("b"), i(1))]));
+    z.push(S::Seq(vec![S::Ns(vec![(s0("a"), i(1))])]));
+    z.push(m(vec![(S::Ns(vec![(s0("a"), i(1))]), i(5))]));
     z
 }
 
@@ -753,6 +777,8 @@ const TPLS: [&str; 11] = [
 
 fn tpl_env() -> Environment<'static> {
     let mut env = Environment::new();
+    // the Python-style methods of minijinja-contrib (`d.get(k)`, `d.keys()`, `d.items()`, `xs.count(x)`)
+    env.set_unknown_method_callback(minijinja_contrib::pycompat::unknown_method_callback);
     for (k, t) in TPLS.iter().enumerate() {
         env.add_template_owned(format!("t{k}"), t.to_string()).unwrap();
     }
@@ -786,6 +812,15 @@ fn alphabet() -> Vec<S> {
 fn alphabet_b() -> Vec<S> {
     vec![s0("c"), S::Bytes(b"b".to_vec()), S::Bytes(vec![0x61, 0xff]), s0("B"), i(1), S::Bytes(b"C".to_vec()), s0("b")]
 }
+
+/// third alphabet: the kinds the other two lack as list items (undefined, bool next to the number it equals,
+/// list / tuple / map / plain object items)
+fn alphabet_c() -> Vec<S> {
+    vec![S::Undef, S::Bool(true), i(1), S::Seq(vec![i(1)]), S::Tuple(vec![i(1)]), S::Map(vec![(s0("a"), i(1))]), S::Plain("p".into())]
+}
+
+/// characters of the `chars` form (a string as filter input stands for the list of its characters)
+const CHARS: [char; 7] = ['b', 'a', 'B', 'é', '1', ' ', 'A'];
 
 fn word_list_in(word: &str, alt: bool) -> Vec<S> {
     let al = if alt { alphabet_b() } else { alphabet() };
@@ -862,6 +897,10 @@ fn get_k(v: &Value, wrapped: bool) -> Value {
 /// `ys` must be the stable sort of `xs` under `key_cmp` (descending when rev): permutation, ordered,
 /// and equal-key items in input order
 fn check_sorted(fc: &mut FilterCheck, filter: &str, xs: &[Value], ys: &[Value], wrapped: bool, cs: bool, rev: bool, opts: &str) {
+    check_sorted_by(fc, filter, xs, ys, &|v| get_k(v, wrapped), cs, rev, opts)
+}
+
+fn check_sorted_by(fc: &mut FilterCheck, filter: &str, xs: &[Value], ys: &[Value], keyf: &dyn Fn(&Value) -> Value, cs: bool, rev: bool, opts: &str) {
     let mut a: Vec<String> = xs.iter().map(ident).collect();
     let mut b: Vec<String> = ys.iter().map(ident).collect();
     a.sort();
@@ -871,7 +910,7 @@ fn check_sorted(fc: &mut FilterCheck, filter: &str, xs: &[Value], ys: &[Value], 
         return;
     }
     for w in ys.windows(2) {
-        let o = key_cmp(&get_k(&w[0], wrapped), &get_k(&w[1], wrapped), cs);
+        let o = key_cmp(&keyf(&w[0]), &keyf(&w[1]), cs);
         let bad = if rev { o == Ordering::Less } else { o == Ordering::Greater };
         if bad {
             fc.fail(filter, "sorted", format!("{opts} out={:?}", ys));
@@ -880,9 +919,9 @@ fn check_sorted(fc: &mut FilterCheck, filter: &str, xs: &[Value], ys: &[Value], 
     }
     // stability: within every class of equal keys the items appear in input order
     for x in xs {
-        let kx = get_k(x, wrapped);
-        let cls_in: Vec<String> = xs.iter().filter(|y| key_cmp(&get_k(y, wrapped), &kx, cs) == Ordering::Equal).map(ident).collect();
-        let cls_out: Vec<String> = ys.iter().filter(|y| key_cmp(&get_k(y, wrapped), &kx, cs) == Ordering::Equal).map(ident).collect();
+        let kx = keyf(x);
+        let cls_in: Vec<String> = xs.iter().filter(|y| key_cmp(&keyf(y), &kx, cs) == Ordering::Equal).map(ident).collect();
+        let cls_out: Vec<String> = ys.iter().filter(|y| key_cmp(&keyf(y), &kx, cs) == Ordering::Equal).map(ident).collect();
         if cls_in != cls_out {
             fc.fail(filter, if rev { "stable-reverse" } else { "stable" }, format!("{opts} out={:?}", ys));
             return;
@@ -898,7 +937,7 @@ fn is_subsequence(sub: &[String], sup: &[String]) -> bool {
 fn check_filters_on(fc: &mut FilterCheck, xs_spec: &[S], form: &str) {
     let wrapped = form == "wrap";
     // the input container
-    let items: Vec<Value> = if wrapped {
+    let mut items: Vec<Value> = if wrapped {
         xs_spec
             .iter()
             .enumerate()
@@ -908,6 +947,15 @@ fn check_filters_on(fc: &mut FilterCheck, xs_spec: &[S], form: &str) {
         xs_spec.iter().map(build).collect()
     };
     let input = match form {
+        // a map as filter input stands for the list of its keys (in its own iteration order)
+        "keys" => {
+            let m = Value::from_pairs(items.iter().cloned().enumerate().map(|(p, k)| (k, Value::from(p))));
+            items = m.try_iter().map(|it| it.collect()).unwrap_or_default();
+            m
+        }
+        "oseq" => Value::from_object(OSeqObj(items.clone())),
+        // a string as filter input stands for the list of its characters
+        "chars" => Value::from(items.iter().map(|v| v.to_string()).collect::<String>()),
         "iter" => {
             let v = items.clone();
             Value::make_object_iterable(v, |v| Box::new(v.iter().filter(|_| true).cloned()))
@@ -941,13 +989,43 @@ fn check_filters_on(fc: &mut FilterCheck, xs_spec: &[S], form: &str) {
                 Ok(ys) => check_sorted(fc, "sort", &items, &ys, wrapped, cs, rev, &opts),
                 Err(e) => fc.fail("sort", &e, opts),
             }
-            if wrapped && !rev {
-                // composite key "k, id" is a total refinement: result must equal the sort by k (ids ascend)
-                let kws2: Vec<(&'static str, Value)> = vec![("attribute", Value::from("k, id")), ("case_sensitive", Value::from(cs))];
+            if wrapped {
+                // composite key "k, id" is a total refinement without ties (ids differ): the result is the one
+                // strictly ascending (descending with reverse) arrangement; a composite key is compared as a
+                // list, so no case folding inside it
+                let kws2: Vec<(&'static str, Value)> =
+                    vec![("attribute", Value::from("k, id")), ("case_sensitive", Value::from(cs)), ("reverse", Value::from(rev))];
+                let opts2 = format!("attr=k,id rev={}", rev as u8);
                 match fc.apply("sort", &input, &[Value::from(kw(&kws2))]).and_then(|v| to_vec(&v)) {
-                    // (a composite key is compared as a list: no case folding inside it)
-                    Ok(ys) => check_sorted(fc, "sort", &items, &ys, wrapped, true, false, "attr=k,id"),
-                    Err(e) => fc.fail("sort", &e, "attr=k,id".into()),
+                    Ok(ys) => {
+                        let comp = |v: &Value| Value::from(vec![get_k(v, true), v.get_attr("id").unwrap_or(Value::UNDEFINED)]);
+                        let mut a: Vec<String> = items.iter().map(ident).collect();
+                        let mut b: Vec<String> = ys.iter().map(ident).collect();
+                        a.sort();
+                        b.sort();
+                        if a != b {
+                            fc.fail("sort", "multi-perm", format!("{opts2} out={:?}", ys));
+                        } else if ys.windows(2).any(|w| comp(&w[0]).cmp(&comp(&w[1])) != if rev { Ordering::Greater } else { Ordering::Less }) {
+                            fc.fail("sort", "multi-sorted", format!("{opts2} out={:?}", ys));
+                        }
+                    }
+                    Err(e) => fc.fail("sort", &e, opts2),
+                }
+            }
+        }
+    }
+
+    // ---- sort `[item, position]` pairs by the index path "0"
+    if !wrapped && form == "plain" {
+        let pairs: Vec<Value> = items.iter().enumerate().map(|(p, v)| Value::from(vec![v.clone(), Value::from(p)])).collect();
+        for cs in [false, true] {
+            for rev in [false, true] {
+                let kws: Vec<(&'static str, Value)> =
+                    vec![("case_sensitive", Value::from(cs)), ("reverse", Value::from(rev)), ("attribute", Value::from("0"))];
+                let opts = format!("cs={} rev={} attr=0", cs as u8, rev as u8);
+                match fc.apply("sort", &Value::from(pairs.clone()), &[Value::from(kw(&kws))]).and_then(|v| to_vec(&v)) {
+                    Ok(ys) => check_sorted_by(fc, "sort", &pairs, &ys, &|v| v.get_item_by_index(0).unwrap_or(Value::UNDEFINED), cs, rev, &opts),
+                    Err(e) => fc.fail("sort", &e, opts),
                 }
             }
         }
@@ -1006,6 +1084,79 @@ fn check_filters_on(fc: &mut FilterCheck, xs_spec: &[S], form: &str) {
                     }
                     Err(e) => fc.fail("sort", &e, opts),
                 }
+            }
+        }
+    }
+
+    // ---- groupby by a dotted path with a default for the items that lack it
+    if wrapped && !xs_spec.is_empty() {
+        // (`default=none` is the same as no default: the kwarg is an `Option<Value>`)
+        let dflt_arg = build(&xs_spec[0]);
+        let dflt = if dflt_arg.is_none() { Value::UNDEFINED } else { dflt_arg.clone() };
+        let keys: Vec<Value> = xs_spec
+            .iter()
+            .enumerate()
+            .map(|(p, sp)| if p % 3 == 2 || p % 5 == 4 { dflt.clone() } else { let v = build(sp); if v.is_undefined() { dflt.clone() } else { v } })
+            .collect();
+        let nested: Vec<Value> = xs_spec
+            .iter()
+            .enumerate()
+            .map(|(p, sp)| {
+                if p % 3 == 2 {
+                    Value::from_pairs([("id", Value::from(p))])
+                } else if p % 5 == 4 {
+                    Value::from_pairs([("a", Value::from(7)), ("id", Value::from(p))])
+                } else {
+                    Value::from_pairs([("a", Value::from_pairs([("b", build(sp))])), ("id", Value::from(p))])
+                }
+            })
+            .collect();
+        for cs in [false, true] {
+            let kws: Vec<(&'static str, Value)> = vec![("case_sensitive", Value::from(cs)), ("default", dflt_arg.clone())];
+            let opts = format!("cs={} attr=a.b default", cs as u8);
+            match fc.apply("groupby", &Value::from(nested.clone()), &[Value::from("a.b"), Value::from(kw(&kws))]).and_then(|v| to_vec(&v)) {
+                Ok(groups) => {
+                    let mut ids: Vec<usize> = vec![];
+                    let mut groupers: Vec<Value> = vec![];
+                    let mut bad: Option<&str> = None;
+                    for g in &groups {
+                        let gv = to_vec(g).unwrap_or_default();
+                        if gv.len() != 2 {
+                            bad = Some("path-shape");
+                            break;
+                        }
+                        let members = to_vec(&gv[1]).unwrap_or_default();
+                        if members.is_empty() {
+                            bad = Some("path-empty-group");
+                        }
+                        for mbr in &members {
+                            let id = mbr.get_attr("id").ok().and_then(|v| v.as_usize()).unwrap_or(usize::MAX);
+                            if id >= keys.len() || key_cmp(&keys[id], &gv[0], cs) != Ordering::Equal {
+                                bad = Some("path-member-key");
+                            }
+                            ids.push(id);
+                        }
+                        if groupers.iter().any(|o| key_cmp(o, &gv[0], cs) == Ordering::Equal) {
+                            bad = Some("path-key-in-two-groups");
+                        }
+                        groupers.push(gv[0].clone());
+                    }
+                    let mut seen = ids.clone();
+                    seen.sort();
+                    if bad.is_none() && seen != (0..nested.len()).collect::<Vec<_>>() {
+                        bad = Some("path-partition");
+                    }
+                    if bad.is_none() && ids.windows(2).any(|w| {
+                        let o = key_cmp(&keys[w[0]], &keys[w[1]], cs);
+                        o == Ordering::Greater || (o == Ordering::Equal && w[0] > w[1])
+                    }) {
+                        bad = Some("path-stable-sorted");
+                    }
+                    if let Some(b) = bad {
+                        fc.fail("groupby", b, format!("{opts} ids={:?}", ids));
+                    }
+                }
+                Err(e) => fc.fail("groupby", &e, opts),
             }
         }
     }
@@ -1133,6 +1284,8 @@ fn check_filters_on(fc: &mut FilterCheck, xs_spec: &[S], form: &str) {
                 fc.fail("last", "is-last", format!("out={:?}", v));
             }
         }
+        // (`last` promises an answer for sequences, iterables and strings only)
+        Err(e) if form == "keys" && e != "panic" => {}
         Err(e) => fc.fail("last", &e, String::new()),
     }
     for (name, want) in [("min", Ordering::Greater), ("max", Ordering::Less)] {
@@ -1294,10 +1447,17 @@ fn check_dictsort(fc: &mut FilterCheck, xs_spec: &[S]) {
 }
 
 fn run_flist(env: &Environment<'static>, form: &str, word: &str) -> String {
-    // forms ending in `B` draw from the second alphabet
+    // forms ending in `B` / `C` draw from the second / third alphabet
     let alt = form.ends_with('B');
-    let form = form.trim_end_matches('B');
-    let xs = word_list_in(word, alt);
+    let xs = if form.ends_with('C') {
+        let al = alphabet_c();
+        word.bytes().map(|c| al[(c - b'0') as usize].clone()).collect()
+    } else if form == "chars" {
+        word.bytes().map(|c| S::Str(CHARS[(c - b'0') as usize].to_string(), 0)).collect()
+    } else {
+        word_list_in(word, alt)
+    };
+    let form = form.trim_end_matches('B').trim_end_matches('C');
     let tmpl = env.template_from_str("").unwrap();
     let mut state = tmpl.new_state();
     let mut fc = FilterCheck { state: &mut state, fails: vec![], n: 0 };
@@ -1346,10 +1506,15 @@ fn run_runs(env: &Environment<'static>, which: &str, len: usize, count: &str, fi
 // ------------------------------------------------------------------------------------------ lookups
 
 /// every way to ask a map for a key.  All of them must answer "some key of the map is == probe".
-const LK_ENTRIES: [&str; 17] = [
+const LK_ENTRIES: [&str; 21] = [
     "get_item", "subscript", "in", "iter-keys", "items", "dictsort", "get_attr", "dot", "get_path", "map-attr",
     "selectattr", "rejectattr", "groupby", "sort-attr", "unique-attr", "get_item_by_index", "context-var",
+    "py-get", "py-keys", "py-items", "attr-filter",
 ];
+/// the map types behind the `lk` cases
+const LK_BACKINGS: [&str; 13] = ["vm", "hm", "bts", "hms", "arc", "obj", "ser", "sts", "hsts", "ctx", "mrg", "mrg2", "ns"];
+/// entry counts on both sides of the small-map scans (`<= 8` for `&'static str` keys, `<= 12` for value keys)
+const LK_SIZES: [usize; 7] = [1, 2, 8, 9, 12, 13, 20];
 
 #[derive(Debug)]
 struct StrObj(Vec<(String, Value)>);
@@ -1446,10 +1611,64 @@ fn lk_map(backing: &str, n: usize, k: &Value, marker: Value) -> Option<Value> {
                     }
                     Some(Value::from(minijinja::value::Serde(&m)))
                 }
+                // maps keyed by `&'static str` (their own `Object` impl with its own small-map scan)
+                "sts" => {
+                    let mut m: BTreeMap<&'static str, Value> = BTreeMap::new();
+                    m.insert(leak(&ks), marker);
+                    for i in 1..n {
+                        m.insert(leak(&fill(i)), Value::from(i));
+                    }
+                    Some(Value::from_object(m))
+                }
+                "hsts" => {
+                    let mut m: HashMap<&'static str, Value> = HashMap::new();
+                    m.insert(leak(&ks), marker);
+                    for i in 1..n {
+                        m.insert(leak(&fill(i)), Value::from(i));
+                    }
+                    Some(Value::from_object(m))
+                }
+                // what the `context!` macro builds (its expansion calls exactly these functions)
+                "ctx" => {
+                    let mut c = minijinja::__context::make();
+                    minijinja::__context::add(&mut c, leak(&ks), marker);
+                    for i in 1..n {
+                        minijinja::__context::add(&mut c, leak(&fill(i)), Value::from(i));
+                    }
+                    Some(minijinja::__context::build(c))
+                }
+                // `context! { ..a, ..b }` / `merge_maps`: the key sits in the first or in the last of three maps
+                "mrg" | "mrg2" => {
+                    let mut with_key: BTreeMap<String, Value> = BTreeMap::new();
+                    with_key.insert(ks, marker);
+                    let mut rest: BTreeMap<String, Value> = BTreeMap::new();
+                    for i in 1..n {
+                        rest.insert(fill(i), Value::from(i));
+                    }
+                    let empty: BTreeMap<String, Value> = BTreeMap::new();
+                    let parts = if backing == "mrg" {
+                        vec![Value::from(with_key), Value::from(rest), Value::from(empty)]
+                    } else {
+                        vec![Value::from(empty), Value::from(rest), Value::from(with_key)]
+                    };
+                    Some(minijinja::value::merge_maps(parts))
+                }
+                // the engine's `namespace(..)` object
+                "ns" => {
+                    let mut ps = vec![(Value::from(ks), marker)];
+                    ps.extend((1..n).map(|i| (Value::from(fill(i)), Value::from(i))));
+                    let env = Environment::new();
+                    env.compile_expression("namespace(d)").ok()?.eval(context! { d => Value::from_pairs(ps) }).ok()
+                }
                 _ => None,
             }
         }
     }
+}
+
+/// a `&'static str` for the maps keyed by one (a few hundred short strings per run)
+fn leak(s: &str) -> &'static str {
+    Box::leak(s.to_string().into_boxed_str())
 }
 
 fn flag(r: Result<Result<bool, ()>, String>) -> char {
@@ -1500,6 +1719,14 @@ fn run_lk(env: &Environment<'static>, backing: &str, n: usize, ks: &S, ps: &S) -
                 Some(t) => flag(guarded(|| m.get_attr(t).map(|v| is_marker(&v)).map_err(|_| ()))),
                 None => '-',
             },
+            "py-get" => render_flag(env, "{{ 1 if m.get(p) == 777 else 0 }}", context! { m => m.clone(), p => p.clone() }),
+            "py-keys" => render_flag(env, "{{ 1 if p in (m.keys()|list) else 0 }}", context! { m => m.clone(), p => p.clone() }),
+            "py-items" => render_flag(
+                env,
+                "{% set ns = namespace(f=0) %}{% for a, b in m.items() %}{% if a == p and b == 777 %}{% set ns.f = 1 %}{% endif %}{% endfor %}{{ ns.f }}",
+                context! { m => m.clone(), p => p.clone() },
+            ),
+            "attr-filter" => render_flag(env, "{{ 1 if (m|attr(p)) == 777 else 0 }}", context! { m => m.clone(), p => p.clone() }),
             "dot" => match &pstr {
                 Some(t) if is_ident(t) => render_flag(env, &format!("{{{{ 1 if m.{t} == 777 else 0 }}}}"), context! { m => m.clone() }),
                 _ => '-',
@@ -1575,6 +1802,21 @@ const REV_SHAPES: [&str; 21] = [
     "oseq", "strkeys", "empty", "plain", "string", "safestring", "bytes",
 ];
 
+/// the built-in shapes plus user objects (`h<cfg>`, see `HintObj`) of every repr × enumerator variant, with an
+/// exact size hint and, for the iterator-backed variants, with no size hint
+fn rev_shapes() -> Vec<String> {
+    let mut out: Vec<String> = REV_SHAPES.iter().map(|s| s.to_string()).collect();
+    for (r, vars) in [("s", "qvtrkje"), ("m", "kjvtre"), ("i", "vtrkje")] {
+        for v in vars.chars() {
+            out.push(format!("h{r}{v}xd"));
+            if "trkj".contains(v) {
+                out.push(format!("h{r}{v}ud"));
+            }
+        }
+    }
+    out
+}
+
 /// the enumerator variant behind each shape: Seq, Iter, RevIter, KeyValueIter, RevKeyValueIter, Values, Str, Empty,
 /// NonEnumerable, plus the string / bytes special cases of `reverse` / `first` / `last`
 fn rev_container(shape: &str, items: &[Value], word: &str) -> Value {
@@ -1598,6 +1840,10 @@ fn rev_container(shape: &str, items: &[Value], word: &str) -> Value {
         "oseq" => Value::from_object(OSeqObj(v)),
         "strkeys" => Value::from_object(StrKeysObj),
         "empty" => Value::from_object(EmptyObj),
+        h if h.len() == 5 && h.starts_with('h') => {
+            let c = h.as_bytes();
+            Value::from_object(HintObj { cfg: [c[1], c[2], c[3], c[4]], pairs: v.into_iter().enumerate().map(|(p, k)| (k, Value::from(p))).collect() })
+        }
         "plain" => Value::from_object(PlainObj(word.to_string())),
         "string" => Value::from(word.chars().map(|c| char::from(b'a' + (c as u8 - b'0'))).collect::<String>() + "é"),
         "safestring" => Value::from_safe_string(word.chars().map(|c| char::from(b'a' + (c as u8 - b'0'))).collect::<String>()),
@@ -1728,7 +1974,8 @@ fn run_rev(env: &Environment<'static>, shape: &str, word: &str) -> String {
                 }
                 Err(e) => {
                     // iterables of unknown length have no length
-                    if e == "panic" || !(shape == "iter" || shape == "once") {
+                    let unknown = shape == "iter" || shape == "once" || (shape.len() == 5 && shape.starts_with('h') && &shape[3..4] == "u");
+                    if e == "panic" || !unknown {
                         fc.fail("length", &e, String::new());
                     }
                 }
@@ -1919,11 +2166,13 @@ fn alphabet2() -> Vec<S> {
     vec![
         i(1), fbits(1.0), S::U64(2), s0("a"), s0("A"), s0("b"), S::None, S::F(0x7ff8_0000_0000_0000), fbits(-0.0), i(0),
         S::Seq(vec![i(1)]), S::Bytes(b"a".to_vec()), S::U128(u128::MAX), S::Str("a".into(), 2),
+        // integers for `sum` (letters e-h): -3, 2^64, i64::MAX, i128::MAX
+        i(-3), S::I128(1 << 64), S::I64(i64::MAX), S::I128(i128::MAX),
     ]
 }
 /// `d` (the safe string "a") only occurs in wrapped items: as a plain item it is `==`, `Equal` and
 /// rendered like the letter `3`, so only an id can tell the two apart
-const LETTERS: &str = "0123456789abcd";
+const LETTERS: &str = "0123456789abcdefgh";
 const PLAIN_LETTERS: &str = "0123456789abc";
 
 fn letter_of(v: &Value, idents: &[String]) -> String {
@@ -1959,7 +2208,8 @@ fn fv_word_index(kind: &str) -> usize {
         "sort" | "dictsort" | "sel" => 4,
         "unique" | "groupby" | "sortm" => 3,
         "cin" => 2,
-        _ => 1,
+        "min" | "max" | "lit" => 1,
+        _ => usize::MAX,
     }
 }
 
@@ -2172,9 +2422,221 @@ impl<'e> Fv<'e> {
                     },
                 }
             }
+            // ---- dotted attribute paths and index paths (items: {p: {k: v}, id} / {id} / {p: 7, id}; [v, id])
+            "sortp" | "uniquep" | "groupbyp" | "sorti" => self.run_paths(f),
+            // ---- sum / zip / chain / items / list / sameas / pycompat methods
+            "sum" => match self.apply("sum", &[Value::from(self.items(wv(f[1]), false))]) {
+                Ok(v) => format!("ok:{v}"),
+                Err(e) => e,
+            },
+            "zip" | "zip3" => {
+                let mut args: Vec<Value> = vec![];
+                for (p, w) in f[1..].iter().enumerate() {
+                    let it = self.items(wv(w), false);
+                    // the second operand as a lazy iterable of unknown length, the others as lists
+                    args.push(if p == 1 { Value::make_object_iterable(it, |v| Box::new(v.iter().filter(|_| true).cloned())) } else { Value::from(it) });
+                }
+                match self.apply("zip", &args) {
+                    Ok(v) => {
+                        let len = v.len().map_or("-".to_string(), |n| n.to_string());
+                        match to_vec(&v) {
+                            Ok(ts) => format!(
+                                "ok:{} len={len} tuples={}",
+                                ts.iter().map(|t| self.show(&to_vec(t).unwrap_or_default(), false)).collect::<Vec<_>>().join(","),
+                                ts.iter().all(|t| format!("{t:?}").starts_with('(')) as u8
+                            ),
+                            Err(e) => e,
+                        }
+                    }
+                    Err(e) => e,
+                }
+            }
+            "chain" | "chain3" => {
+                let (kind, words) = if f[0] == "chain" { (f[1], &f[2..]) } else { ("seq", &f[1..]) };
+                if kind == "map" {
+                    let mk = |w: &str, base: usize| Value::from_pairs(self.items(wv(w), false).into_iter().enumerate().map(|(p, k)| (k, Value::from(base + p))));
+                    let (a, b) = (mk(words[0], 0), mk(words[1], 10));
+                    return match self.apply("chain", &[a, b]) {
+                        Ok(v) => {
+                            let keys = to_vec(&v).unwrap_or_default();
+                            format!(
+                                "ok:{} kind={:?} len={}",
+                                keys.iter().map(|k| format!("{}={}", letter_of(k, &self.idents), v.get_item(k).map(|x| x.to_string()).unwrap_or("e".into()))).collect::<Vec<_>>().join(","),
+                                v.kind(),
+                                v.len().map_or("-".to_string(), |n| n.to_string())
+                            )
+                        }
+                        Err(e) => e,
+                    };
+                }
+                let mut args: Vec<Value> = vec![];
+                for (p, w) in words.iter().enumerate() {
+                    let it = self.items(wv(w), false);
+                    args.push(match (kind, p) {
+                        ("mixed", 0) => Value::make_object_iterable(it, |v| Box::new(v.iter().filter(|_| true).cloned())),
+                        ("tuple", 0) => Value::from_object(Tuple::new(it)),
+                        _ => Value::from(it),
+                    });
+                }
+                match self.apply("chain", &args) {
+                    Ok(v) => {
+                        let items = match to_vec(&v) {
+                            Ok(x) => x,
+                            Err(e) => return e,
+                        };
+                        let idx: String = (0..items.len() + 1)
+                            .map(|p| match v.get_item(&Value::from(p)) {
+                                Ok(x) if x.is_undefined() => "u".to_string(),
+                                Ok(x) => letter_of(&x, &self.idents),
+                                Err(_) => "e".to_string(),
+                            })
+                            .collect();
+                        format!("ok:{} kind={:?} len={} idx={idx}", self.show(&items, false), v.kind(), v.len().map_or("-".to_string(), |n| n.to_string()))
+                    }
+                    Err(e) => e,
+                }
+            }
+            "items" => {
+                let d = Value::from_pairs(self.items(wv(f[1]), false).into_iter().enumerate().map(|(p, k)| (k, Value::from(p))));
+                match self.apply("items", &[d]).and_then(|v| to_vec(&v)) {
+                    Ok(ps) => format!(
+                        "ok:{} tuples={}",
+                        ps.iter().map(|p| self.show_pair(p)).collect::<Vec<_>>().join(","),
+                        ps.iter().all(|t| format!("{t:?}").starts_with('(')) as u8
+                    ),
+                    Err(e) => e,
+                }
+            }
+            "list" => {
+                let items = self.items(wv(f[2]), false);
+                let c = match f[1] {
+                    "str" => Value::from(wv(f[2])),
+                    "undef" => Value::UNDEFINED,
+                    "none" => Value::from(()),
+                    k => self.container(k, items),
+                };
+                match self.apply("list", &[c]).and_then(|v| if v.kind() == minijinja::value::ValueKind::Seq { to_vec(&v) } else { Err("notalist".into()) }) {
+                    Ok(vs) if f[1] == "str" => format!("ok:{}", vs.iter().map(|v| v.to_string()).collect::<String>()),
+                    Ok(vs) => format!("ok:{}", self.show(&vs, false)),
+                    Err(e) => e,
+                }
+            }
+            "sameas" => {
+                let a = build(&self.al[LETTERS.find(f[1]).unwrap()]);
+                let b = if f[3] == "same" { a.clone() } else { build(&self.al[LETTERS.find(f[2]).unwrap()]) };
+                render_flag(self.env, "{{ 1 if a is sameas b else 0 }}", context! { a => a, b => b }).to_string()
+            }
+            "cnt" => {
+                let c = self.container(f[1], self.items(wv(f[2]), false));
+                let arg = build(&self.al[LETTERS.find(f[3]).unwrap()]);
+                self.eval("c.count(a)", context! { c => c, a => arg }).map_or_else(|e| e, |v| format!("ok:{v}"))
+            }
+            "pyd" => {
+                let d = Value::from_pairs(self.items(wv(f[2]), false).into_iter().enumerate().map(|(p, k)| (k, Value::from(p))));
+                let arg = build(&self.al[LETTERS.find(f[3]).unwrap()]);
+                let ctx = context! { d => d, a => arg };
+                match f[1] {
+                    "get" => self.eval("d.get(a)", ctx).map_or_else(|e| e, |v| format!("ok:{v}")),
+                    "get2" => self.eval("d.get(a, 99)", ctx).map_or_else(|e| e, |v| format!("ok:{v}")),
+                    "keys" => self.eval("d.keys()|list", ctx).and_then(|v| to_vec(&v)).map_or_else(|e| e, |vs| format!("ok:{}", self.show(&vs, false))),
+                    "values" => self.eval("d.values()|list", ctx).and_then(|v| to_vec(&v)).map_or_else(|e| e, |vs| format!("ok:{}", vs.iter().map(|v| v.to_string()).collect::<Vec<_>>().join(","))),
+                    _ => self.eval("d.items()|list", ctx).and_then(|v| to_vec(&v)).map_or_else(|e| e, |ps| format!("ok:{}", ps.iter().map(|p| self.show_pair(p)).collect::<Vec<_>>().join(","))),
+                }
+            }
             _ => "bad-case".into(),
         }
     }
+    /// `k=v` for a `(key, value)` tuple
+    fn show_pair(&self, p: &Value) -> String {
+        let kv = to_vec(p).unwrap_or_default();
+        format!("{}={}", kv.first().map(|k| letter_of(k, &self.idents)).unwrap_or("?".into()), kv.get(1).map(|v| v.to_string()).unwrap_or("?".into()))
+    }
+    fn container(&self, kind: &str, items: Vec<Value>) -> Value {
+        match kind {
+            "seq" => Value::from(items),
+            "tuple" => Value::from_object(Tuple::new(items)),
+            "iter" => Value::make_object_iterable(items, |v| Box::new(v.iter().filter(|_| true).cloned())),
+            "once" => Value::make_one_shot_iterator(items.into_iter()),
+            "oseq" => Value::from_object(OSeqObj(items)),
+            "map" => Value::from_pairs(items.into_iter().map(|k| (k, Value::from(1)))),
+            _ => Value::from_object(OMapObj(items.into_iter().map(|k| (k, Value::from(1))).collect())),
+        }
+    }
+    fn eval(&self, expr: &str, ctx: Value) -> Result<Value, String> {
+        let env = self.env;
+        match guarded(|| env.compile_expression(expr).and_then(|e| e.eval(ctx))) {
+            Err(_) => Err("panic".into()),
+            Ok(Err(e)) => Err(format!("err:{:?}", e.kind())),
+            Ok(Ok(v)) => Ok(v),
+        }
+    }
+    /// items for the path cases: every third lacks `p`, every fifth has a `p` that is not a map
+    fn items_p(&self, word: &str) -> Vec<Value> {
+        word.chars()
+            .enumerate()
+            .map(|(idx, c)| {
+                let v = build(&self.al[LETTERS.find(c).unwrap()]);
+                if idx % 3 == 2 {
+                    Value::from_pairs([("id", Value::from(idx))])
+                } else if idx % 5 == 4 {
+                    Value::from_pairs([("p", Value::from(7)), ("id", Value::from(idx))])
+                } else {
+                    Value::from_pairs([("p", Value::from_pairs([("k", v)])), ("id", Value::from(idx))])
+                }
+            })
+            .collect()
+    }
+    fn run_paths(&self, f: &[&str]) -> String {
+        let b = |x: &str| x == "1";
+        match f[0] {
+            // fv sortp <cs> <rev> <word>: sort(attribute="p.k")
+            "sortp" => {
+                let kws: Vec<(&'static str, Value)> = vec![("case_sensitive", Value::from(b(f[1]))), ("reverse", Value::from(b(f[2]))), ("attribute", Value::from("p.k"))];
+                self.list_out(self.apply("sort", &[Value::from(self.items_p(wv(f[3]))), Value::from(kw(&kws))]), true)
+            }
+            // fv sorti <cs> <rev> <word>: items `[v, id]`, sort(attribute="0")
+            "sorti" => {
+                let items: Vec<Value> = self.items(wv(f[3]), false).into_iter().enumerate().map(|(p, v)| Value::from(vec![v, Value::from(p)])).collect();
+                let kws: Vec<(&'static str, Value)> = vec![("case_sensitive", Value::from(b(f[1]))), ("reverse", Value::from(b(f[2]))), ("attribute", Value::from("0"))];
+                match self.apply("sort", &[Value::from(items), Value::from(kw(&kws))]).and_then(|v| to_vec(&v)) {
+                    Ok(vs) => format!("ok:{}", vs.iter().map(|v| v.get_item_by_index(1).map(|x| x.to_string()).unwrap_or("?".into())).collect::<Vec<_>>().join(".")),
+                    Err(e) => e,
+                }
+            }
+            "uniquep" => {
+                let kws: Vec<(&'static str, Value)> = vec![("case_sensitive", Value::from(b(f[1]))), ("attribute", Value::from("p.k"))];
+                self.list_out(self.apply("unique", &[Value::from(self.items_p(wv(f[2]))), Value::from(kw(&kws))]), true)
+            }
+            // fv groupbyp <cs> <dflt letter|-> <word>
+            _ => {
+                let mut kws: Vec<(&'static str, Value)> = vec![("case_sensitive", Value::from(b(f[1])))];
+                if f[2] != "-" {
+                    kws.push(("default", build(&self.al[LETTERS.find(f[2]).unwrap()])));
+                }
+                match self.apply("groupby", &[Value::from(self.items_p(wv(f[3]))), Value::from("p.k"), Value::from(kw(&kws))]).and_then(|v| to_vec(&v)) {
+                    Ok(groups) => {
+                        let mut parts = vec![];
+                        for g in groups {
+                            let gv = to_vec(&g).unwrap_or_default();
+                            if gv.len() != 2 {
+                                return "shape".into();
+                            }
+                            let members = to_vec(&gv[1]).unwrap_or_default();
+                            let gl = if gv[0].is_undefined() { "u".to_string() } else { letter_of(&gv[0], &self.idents) };
+                            parts.push(format!("{}:{}", gl, self.show(&members, true)));
+                        }
+                        format!("ok:{}", parts.join(";"))
+                    }
+                    Err(e) => e,
+                }
+            }
+        }
+    }
+}
+
+/// an empty word is written `-`
+fn wv(w: &str) -> &str {
+    if w == "-" { "" } else { w }
 }
 
 // ------------------------------------------------------------------------------------------ main
@@ -2195,20 +2657,34 @@ fn words(max_len: usize, base: usize) -> Vec<String> {
     out
 }
 
-fn main() {
-    quiet_panics();
-    let args: Vec<String> = std::env::args().collect();
-    let out = std::io::stdout();
-    let mut out = std::io::BufWriter::new(out.lock());
-    let env = tpl_env();
-    match args.get(1).map(|s| s.as_str()) {
-        Some("zoo") => {
-            for (k, s) in zoo(args.get(2).map_or(false, |t| t == "thorough")).iter().enumerate() {
-                writeln!(out, "{k} {} {:?}", enc(s), build(s)).unwrap();
-            }
-        }
-        Some("gen") => {
-            let thorough = args.get(2).map_or(false, |t| t == "thorough");
+// ------------------------------------------------------------------------------------------ gen (sharded)
+
+/// the parts `gen <tier> <part>` knows; every part is self-contained (the lines the driver needs to
+/// register values come with it), so parts and shards of a part run as separate processes
+const PARTS: [&str; 12] = ["zoo", "tpl", "flist", "flistB", "long", "rev", "lk", "rand", "hint", "fv", "runs", "xf"];
+
+/// `C07_SHARD=i/n`: this process runs the units `u` of its part with `u % n == i`
+fn shard() -> (usize, usize) {
+    std::env::var("C07_SHARD")
+        .ok()
+        .and_then(|s| {
+            let (a, b) = s.split_once('/')?;
+            Some((a.parse().ok()?, b.parse::<usize>().ok()?.max(1)))
+        })
+        .unwrap_or((0, 1))
+}
+
+/// one random stream per part, whatever the sharding
+fn part_rng(part: &str) -> Rng {
+    let k = PARTS.iter().position(|p| *p == part).unwrap_or(99) as u64;
+    Rng::new(seed_from_env().wrapping_mul(1_000_003).wrapping_add(k))
+}
+
+fn gen_part(out: &mut dyn Write, env: &Environment<'static>, thorough: bool, part: &str) {
+    let (sh, nsh) = shard();
+    let mine = |u: usize| u % nsh == sh;
+    match part {
+        "zoo" => {
             let z = zoo(thorough);
             let a: Vec<Value> = z.iter().map(build).collect();
             let b: Vec<Value> = z.iter().map(build).collect();
@@ -2219,12 +2695,23 @@ fn main() {
                 writeln!(out, "val {k} {e}\t{}", run_val(&va)).unwrap();
             }
             for x in 0..z.len() {
+                if !mine(x) {
+                    continue;
+                }
                 for y in 0..z.len() {
                     writeln!(out, "pair {x} {y}\t{}", run_pair_s(Some((&z[x], &z[y])), &a[x], &b[y])).unwrap();
                 }
             }
-            // template operators: all pairs in the thorough tier
+        }
+        "tpl" => {
+            // the template operators on the zoo pairs (the expectations come from the `zoo` part's pair results)
+            let z = zoo(thorough);
+            let a: Vec<Value> = z.iter().map(build).collect();
+            let b: Vec<Value> = z.iter().map(build).collect();
             for x in 0..z.len() {
+                if !mine(x) {
+                    continue;
+                }
                 for y in 0..z.len() {
                     // quick: a fixed stride, plus every pair that is `==` (where `in` / lookups must agree)
                     let is_eq = guarded(|| a[x] == b[y]).unwrap_or(false);
@@ -2234,63 +2721,102 @@ fn main() {
                         continue;
                     }
                     if thorough || (x * 31 + y * 17) % 4 == 0 || x == y || is_eq {
-                        writeln!(out, "tpl {x} {y}\t{}", run_tpl(&env, &a[x], &b[y])).unwrap();
+                        writeln!(out, "tpl {x} {y}\t{}", run_tpl(env, &a[x], &b[y])).unwrap();
                     }
                 }
             }
+        }
+        "flist" => {
             // filters: all words of length ≤ 5 over the 7-letter alphabet
-            let max_len = 5;
-            for w in words(max_len, 7) {
+            for (u, w) in words(5, 7).into_iter().enumerate() {
+                if !mine(u) {
+                    continue;
+                }
                 let wtxt = if w.is_empty() { "-".to_string() } else { w.clone() };
-                writeln!(out, "flist plain {wtxt}\t{}", run_flist(&env, "plain", &w)).unwrap();
-                writeln!(out, "flist wrap {wtxt}\t{}", run_flist(&env, "wrap", &w)).unwrap();
+                writeln!(out, "flist plain {wtxt}\t{}", run_flist(env, "plain", &w)).unwrap();
+                writeln!(out, "flist wrap {wtxt}\t{}", run_flist(env, "wrap", &w)).unwrap();
                 if w.len() <= 3 || thorough {
-                    for form in ["iter", "sized", "tuple", "deque", "dict"] {
-                        writeln!(out, "flist {form} {wtxt}\t{}", run_flist(&env, form, &w)).unwrap();
+                    for form in ["iter", "sized", "tuple", "deque", "dict", "keys", "oseq", "chars"] {
+                        writeln!(out, "flist {form} {wtxt}\t{}", run_flist(env, form, &w)).unwrap();
                     }
                 }
             }
-            for w in words(4, 7) {
+        }
+        "flistB" => {
+            for (u, w) in words(4, 7).into_iter().enumerate() {
+                if !mine(u) {
+                    continue;
+                }
                 let wtxt = if w.is_empty() { "-".to_string() } else { w.clone() };
-                writeln!(out, "flist plainB {wtxt}\t{}", run_flist(&env, "plainB", &w)).unwrap();
-                writeln!(out, "flist wrapB {wtxt}\t{}", run_flist(&env, "wrapB", &w)).unwrap();
+                writeln!(out, "flist plainB {wtxt}\t{}", run_flist(env, "plainB", &w)).unwrap();
+                writeln!(out, "flist wrapB {wtxt}\t{}", run_flist(env, "wrapB", &w)).unwrap();
                 if w.len() <= 3 {
-                    writeln!(out, "flist dictB {wtxt}\t{}", run_flist(&env, "dictB", &w)).unwrap();
+                    writeln!(out, "flist dictB {wtxt}\t{}", run_flist(env, "dictB", &w)).unwrap();
+                }
+                writeln!(out, "flist plainC {wtxt}\t{}", run_flist(env, "plainC", &w)).unwrap();
+                writeln!(out, "flist wrapC {wtxt}\t{}", run_flist(env, "wrapC", &w)).unwrap();
+                if w.len() <= 3 {
+                    writeln!(out, "flist dictC {wtxt}\t{}", run_flist(env, "dictC", &w)).unwrap();
+                    writeln!(out, "flist keysC {wtxt}\t{}", run_flist(env, "keysC", &w)).unwrap();
                 }
             }
+        }
+        "long" => {
             // long random lists (ties everywhere): an unstable or insertion-only sort shows here
-            let mut rng = Rng::new(seed_from_env());
+            let mut rng = part_rng(part);
             let n_long = if thorough { 2000 } else { 200 };
-            for _ in 0..n_long {
+            for u in 0..n_long {
                 let len = 21 + rng.below(if thorough { 300 } else { 120 }) as usize;
                 let w: String = (0..len).map(|_| char::from(b'0' + rng.below(7) as u8)).collect();
-                writeln!(out, "flist wrap {w}\t{}", run_flist(&env, "wrap", &w)).unwrap();
-                writeln!(out, "flist plain {w}\t{}", run_flist(&env, "plain", &w)).unwrap();
+                if !mine(u) {
+                    continue;
+                }
+                writeln!(out, "flist wrap {w}\t{}", run_flist(env, "wrap", &w)).unwrap();
+                writeln!(out, "flist plain {w}\t{}", run_flist(env, "plain", &w)).unwrap();
             }
+        }
+        "rev" => {
             // reverse / first / last / list / length on every enumerator shape
-            for w in words(if thorough { 4 } else { 3 }, 7) {
+            let shapes = rev_shapes();
+            for (u, w) in words(if thorough { 4 } else { 3 }, 7).into_iter().enumerate() {
+                if !mine(u) {
+                    continue;
+                }
                 let wtxt = if w.is_empty() { "-".to_string() } else { w.clone() };
-                for shape in REV_SHAPES {
-                    writeln!(out, "rev {shape} {wtxt}\t{}", run_rev(&env, shape, &w)).unwrap();
+                for shape in &shapes {
+                    writeln!(out, "rev {shape} {wtxt}\t{}", run_rev(env, shape, &w)).unwrap();
                 }
             }
-            // every lookup entry point, around the small-map fast path threshold, for every backing map type
+        }
+        "lk" => {
+            // every lookup entry point, around the small-map fast path thresholds, for every backing map type
             let lkk = lk_keys();
-            for backing in ["vm", "hm", "bts", "hms", "arc", "obj", "ser"] {
-                for n in [1usize, 2, 12, 13, 20] {
+            let mut u = 0;
+            for backing in LK_BACKINGS {
+                for n in LK_SIZES {
                     for ks in &lkk {
+                        u += 1;
+                        if !mine(u) {
+                            continue;
+                        }
                         for ps in &lkk {
-                            if let Some(res) = run_lk(&env, backing, n, ks, ps) {
+                            if let Some(res) = run_lk(env, backing, n, ks, ps) {
                                 writeln!(out, "lk {backing} {n} {} {}\t{res}", enc(ks), enc(ps)).unwrap();
                             }
                         }
                     }
                 }
             }
+        }
+        "rand" => {
             // random nested values (depth ≤ 4) in batches: every ordered pair of a batch
+            let mut rng = part_rng(part);
             let (nb, bs) = if thorough { (250, 32) } else { (40, 28) };
             for bi in 0..nb {
                 let batch = rand_batch(&mut rng, bs);
+                if !mine(bi) {
+                    continue;
+                }
                 let va: Vec<Value> = batch.iter().map(build).collect();
                 let vb: Vec<Value> = batch.iter().map(build).collect();
                 for (k, sp) in batch.iter().enumerate() {
@@ -2305,152 +2831,288 @@ fn main() {
                     }
                 }
             }
+        }
+        "hint" => {
             // size-hint objects: every ordered pair, and the template operators on them
-            {
-                let hz = hint_zoo();
-                let va: Vec<Value> = hz.iter().map(build).collect();
-                let vb: Vec<Value> = hz.iter().map(build).collect();
-                for (k, sp) in hz.iter().enumerate() {
-                    let e = enc(sp);
-                    assert_eq!(&dec(&e), sp, "encoding does not round-trip: {e}");
-                    writeln!(out, "rval h {k} {e}\t{}", run_val(&va[k])).unwrap();
+            let hz = hint_zoo();
+            let va: Vec<Value> = hz.iter().map(build).collect();
+            let vb: Vec<Value> = hz.iter().map(build).collect();
+            for (k, sp) in hz.iter().enumerate() {
+                let e = enc(sp);
+                assert_eq!(&dec(&e), sp, "encoding does not round-trip: {e}");
+                writeln!(out, "rval h {k} {e}\t{}", run_val(&va[k])).unwrap();
+            }
+            for x in 0..hz.len() {
+                if !mine(x) {
+                    continue;
                 }
-                for x in 0..hz.len() {
-                    for y in 0..hz.len() {
-                        let res = run_pair_s(Some((&hz[x], &hz[y])), &va[x], &vb[y]);
-                        let interesting = res.starts_with('E') || res.contains(" 1 ") || thorough || (x * 7 + y * 13) % 16 == 0;
-                        writeln!(out, "rpair h {x} {y}\t{res}").unwrap();
-                        if interesting && !res.contains('P') {
-                            writeln!(out, "rtpl h {x} {y}\t{}", run_tpl(&env, &va[x], &vb[y])).unwrap();
-                        }
+                for y in 0..hz.len() {
+                    let res = run_pair_s(Some((&hz[x], &hz[y])), &va[x], &vb[y]);
+                    let interesting = res.starts_with('E') || res.contains(" 1 ") || thorough || (x * 7 + y * 13) % 16 == 0;
+                    writeln!(out, "rpair h {x} {y}\t{res}").unwrap();
+                    if interesting && !res.contains('P') {
+                        writeln!(out, "rtpl h {x} {y}\t{}", run_tpl(env, &va[x], &vb[y])).unwrap();
                     }
                 }
             }
-            // the filters / `in` / tests / map literals against the Lean model
-            let fv = Fv { env: &env, al: alphabet2(), idents: alphabet2().iter().map(|sp| ident(&build(sp))).collect() };
-            for (k, sp) in fv.al.iter().enumerate() {
-                writeln!(out, "fa {} {}\tok", &LETTERS[k..k + 1], enc(sp)).unwrap();
-            }
-            let mut fv_cases: Vec<String> = vec![];
-            let wd = |w: &String| if w.is_empty() { "-".to_string() } else { w.clone() };
-            let plain_words = fv_words(if thorough { 4 } else { 3 }, true);
-            let wrap_words = fv_words(if thorough { 3 } else { 2 }, false);
-            let mut long_words: Vec<String> = vec![];
-            for _ in 0..(if thorough { 600 } else { 80 }) {
-                let len = 4 + rng.below(36) as usize;
-                long_words.push((0..len).map(|_| PLAIN_LETTERS.as_bytes()[rng.below(13) as usize] as char).collect());
-            }
-            // long lists with few distinct keys and many ties between distinguishable items, in random and
-            // adversarial orders (ascending, descending, organ pipe, blocks, alternating)
-            let tie_sets: [&str; 6] = ["01", "34", "89", "0134", "013489", "0123456789abc"];
-            let mut tie_words: Vec<String> = vec![];
-            let n_tie = if thorough { 40 } else { 8 };
-            for set in tie_sets {
-                let cs: Vec<char> = set.chars().collect();
-                for _ in 0..n_tie {
-                    let len = 20 + rng.below(181) as usize;
-                    let rnd: String = (0..len).map(|_| cs[rng.below(cs.len() as u64) as usize]).collect();
-                    let mut asc: Vec<char> = rnd.chars().collect();
-                    asc.sort();
-                    let desc: String = asc.iter().rev().collect();
-                    let pipe: String = asc.iter().step_by(2).chain(asc.iter().rev().step_by(2)).collect();
-                    let alt: String = (0..len).map(|p| cs[p % cs.len()]).collect();
-                    let blocks: String = (0..len).map(|p| cs[(p / 7) % cs.len()]).collect();
-                    tie_words.push(rnd);
-                    if rng.chance(1, 2) {
-                        tie_words.push(asc.iter().collect());
-                        tie_words.push(desc);
-                    } else {
-                        tie_words.push(pipe);
-                        tie_words.push(if rng.chance(1, 2) { alt } else { blocks });
-                    }
-                }
-            }
-            for w in tie_words.iter() {
-                for cs in 0..2 {
-                    for rev in 0..2 {
-                        fv_cases.push(format!("sort {cs} {rev} plain {w}"));
-                        fv_cases.push(format!("sort {cs} {rev} wrap {w}"));
-                        fv_cases.push(format!("sortm {cs} {rev} {w}"));
-                        fv_cases.push(format!("dictsort {cs} {rev} 1 {w}"));
-                    }
-                    fv_cases.push(format!("unique {cs} plain {w}"));
-                    fv_cases.push(format!("unique {cs} wrap {w}"));
-                    fv_cases.push(format!("groupby {cs} - {w}"));
-                }
-                fv_cases.push(format!("min {w}"));
-                fv_cases.push(format!("max {w}"));
-                // the same list with safe strings in place of some plain ones (wrapped items only)
-                let ws: String = w.chars().enumerate().map(|(p, c)| if c == '3' && p % 2 == 1 { 'd' } else { c }).collect();
-                fv_cases.push(format!("sort 0 0 wrap {ws}"));
-                fv_cases.push(format!("sort 0 1 wrap {ws}"));
-                fv_cases.push(format!("unique 0 wrap {ws}"));
-            }
-            for w in plain_words.iter() {
-                for cs in 0..2 {
-                    for rev in 0..2 {
-                        fv_cases.push(format!("sort {cs} {rev} plain {}", wd(w)));
-                    }
-                    fv_cases.push(format!("unique {cs} plain {}", wd(w)));
-                }
-                fv_cases.push(format!("min {}", wd(w)));
-                fv_cases.push(format!("max {}", wd(w)));
-            }
-            for w in wrap_words.iter().chain(long_words.iter()) {
-                for cs in 0..2 {
-                    for rev in 0..2 {
-                        fv_cases.push(format!("sort {cs} {rev} wrap {}", wd(w)));
-                    }
-                    fv_cases.push(format!("unique {cs} wrap {}", wd(w)));
-                    fv_cases.push(format!("sortm {cs} 0 {}", wd(w)));
-                    fv_cases.push(format!("groupby {cs} - {}", wd(w)));
-                    fv_cases.push(format!("groupby {cs} 5 {}", wd(w)));
-                }
-            }
-            for w in fv_words(if thorough { 3 } else { 2 }, true).iter() {
-                for cs in 0..2 {
-                    for rev in 0..2 {
-                        for bv in 0..2 {
-                            fv_cases.push(format!("dictsort {cs} {rev} {bv} {}", wd(w)));
-                        }
-                    }
-                }
-                for arg in PLAIN_LETTERS.chars() {
-                    for t in ["eq", "ne", "lt", "le", "gt", "ge"] {
-                        for inv in 0..2 {
-                            fv_cases.push(format!("sel {t} {inv} plain {} {arg}", wd(w)));
-                        }
-                    }
-                    fv_cases.push(format!("sel eq 0 wrap {} {arg}", wd(w)));
-                    fv_cases.push(format!("sel lt 1 wrap {} {arg}", wd(w)));
-                    for c in ["seq", "tuple", "iter", "once", "oseq", "map", "omap"] {
-                        fv_cases.push(format!("cin {c} {} {arg}", wd(w)));
-                    }
-                }
-            }
-            for w in fv_words(3, false).iter() {
-                fv_cases.push(format!("lit {}", wd(w)));
-            }
-            for c in fv_cases {
-                writeln!(out, "fv {c}\t{}", fv_run_case(&fv, &c)).unwrap();
-            }
+        }
+        "fv" => gen_fv(out, env, thorough, &mine),
+        "xf" => gen_xf(out, env, thorough, &mine),
+        "runs" => {
             // run lengths for the model
             let huge = ["9223372036854775807", "9223372036854775808", "18446744073709551615", "18446744073709551616", "768614336404564651"];
             let max_n = if thorough { 40 } else { 14 };
             for which in ["batch", "slicef"] {
                 for len in 0..=max_n {
+                    if !mine(len) {
+                        continue;
+                    }
                     for fill in [false, true] {
                         for count in 0..=(max_n + 2) {
                             let c = count.to_string();
-                            writeln!(out, "{which} {len} {c} {}\t{}", fill as u8, run_runs(&env, which, len, &c, fill)).unwrap();
+                            writeln!(out, "{which} {len} {c} {}\t{}", fill as u8, run_runs(env, which, len, &c, fill)).unwrap();
                         }
                         if len <= 3 {
                             for c in huge {
-                                writeln!(out, "{which} {len} {c} {}\t{}", fill as u8, run_runs(&env, which, len, c, fill)).unwrap();
+                                writeln!(out, "{which} {len} {c} {}\t{}", fill as u8, run_runs(env, which, len, c, fill)).unwrap();
                             }
                         }
                     }
                 }
+            }
+        }
+        _ => {
+            eprintln!("unknown part {part}; parts: {}", PARTS.join(" "));
+            std::process::exit(2);
+        }
+    }
+}
+
+/// the filters / `in` / tests / map literals against the Lean model
+fn gen_fv(out: &mut dyn Write, env: &Environment<'static>, thorough: bool, mine: &dyn Fn(usize) -> bool) {
+    let mut rng = part_rng("fv");
+    let fv = Fv { env, al: alphabet2(), idents: alphabet2().iter().map(|sp| ident(&build(sp))).collect() };
+    for (k, sp) in fv.al.iter().enumerate() {
+        writeln!(out, "fa {} {}\tok", &LETTERS[k..k + 1], enc(sp)).unwrap();
+    }
+    let mut fv_cases: Vec<String> = vec![];
+    let wd = |w: &String| if w.is_empty() { "-".to_string() } else { w.clone() };
+    let plain_words = fv_words(if thorough { 4 } else { 3 }, true);
+    let wrap_words = fv_words(if thorough { 3 } else { 2 }, false);
+    let mut long_words: Vec<String> = vec![];
+    for _ in 0..(if thorough { 600 } else { 80 }) {
+        let len = 4 + rng.below(36) as usize;
+        long_words.push((0..len).map(|_| PLAIN_LETTERS.as_bytes()[rng.below(13) as usize] as char).collect());
+    }
+    // long lists with few distinct keys and many ties between distinguishable items, in random and
+    // adversarial orders (ascending, descending, organ pipe, blocks, alternating)
+    let tie_sets: [&str; 6] = ["01", "34", "89", "0134", "013489", "0123456789abc"];
+    let mut tie_words: Vec<String> = vec![];
+    let n_tie = if thorough { 40 } else { 8 };
+    for set in tie_sets {
+        let cs: Vec<char> = set.chars().collect();
+        for _ in 0..n_tie {
+            let len = 20 + rng.below(181) as usize;
+            let rnd: String = (0..len).map(|_| cs[rng.below(cs.len() as u64) as usize]).collect();
+            let mut asc: Vec<char> = rnd.chars().collect();
+            asc.sort();
+            let desc: String = asc.iter().rev().collect();
+            let pipe: String = asc.iter().step_by(2).chain(asc.iter().rev().step_by(2)).collect();
+            let alt: String = (0..len).map(|p| cs[p % cs.len()]).collect();
+            let blocks: String = (0..len).map(|p| cs[(p / 7) % cs.len()]).collect();
+            tie_words.push(rnd);
+            if rng.chance(1, 2) {
+                tie_words.push(asc.iter().collect());
+                tie_words.push(desc);
+            } else {
+                tie_words.push(pipe);
+                tie_words.push(if rng.chance(1, 2) { alt } else { blocks });
+            }
+        }
+    }
+    for w in tie_words.iter() {
+        for cs in 0..2 {
+            for rev in 0..2 {
+                fv_cases.push(format!("sort {cs} {rev} plain {w}"));
+                fv_cases.push(format!("sort {cs} {rev} wrap {w}"));
+                fv_cases.push(format!("sortm {cs} {rev} {w}"));
+                fv_cases.push(format!("sortp {cs} {rev} {w}"));
+                fv_cases.push(format!("sorti {cs} {rev} {w}"));
+                fv_cases.push(format!("dictsort {cs} {rev} 1 {w}"));
+            }
+            fv_cases.push(format!("unique {cs} plain {w}"));
+            fv_cases.push(format!("unique {cs} wrap {w}"));
+            fv_cases.push(format!("groupby {cs} - {w}"));
+        }
+        fv_cases.push(format!("min {w}"));
+        fv_cases.push(format!("max {w}"));
+        // the same list with safe strings in place of some plain ones (wrapped items only)
+        let ws: String = w.chars().enumerate().map(|(p, c)| if c == '3' && p % 2 == 1 { 'd' } else { c }).collect();
+        fv_cases.push(format!("sort 0 0 wrap {ws}"));
+        fv_cases.push(format!("sort 0 1 wrap {ws}"));
+        fv_cases.push(format!("unique 0 wrap {ws}"));
+    }
+    for w in plain_words.iter() {
+        for cs in 0..2 {
+            for rev in 0..2 {
+                fv_cases.push(format!("sort {cs} {rev} plain {}", wd(w)));
+            }
+            fv_cases.push(format!("unique {cs} plain {}", wd(w)));
+        }
+        fv_cases.push(format!("min {}", wd(w)));
+        fv_cases.push(format!("max {}", wd(w)));
+    }
+    for w in wrap_words.iter().chain(long_words.iter()) {
+        for cs in 0..2 {
+            for rev in 0..2 {
+                fv_cases.push(format!("sort {cs} {rev} wrap {}", wd(w)));
+                fv_cases.push(format!("sortp {cs} {rev} {}", wd(w)));
+                fv_cases.push(format!("sorti {cs} {rev} {}", wd(w)));
+            }
+            fv_cases.push(format!("unique {cs} wrap {}", wd(w)));
+            fv_cases.push(format!("uniquep {cs} {}", wd(w)));
+            fv_cases.push(format!("sortm {cs} 0 {}", wd(w)));
+            fv_cases.push(format!("sortm {cs} 1 {}", wd(w)));
+            fv_cases.push(format!("groupby {cs} - {}", wd(w)));
+            fv_cases.push(format!("groupby {cs} 5 {}", wd(w)));
+            fv_cases.push(format!("groupbyp {cs} 5 {}", wd(w)));
+        }
+    }
+    for w in fv_words(if thorough { 3 } else { 2 }, true).iter() {
+        for cs in 0..2 {
+            for rev in 0..2 {
+                for bv in 0..2 {
+                    fv_cases.push(format!("dictsort {cs} {rev} {bv} {}", wd(w)));
+                }
+            }
+        }
+        for arg in PLAIN_LETTERS.chars() {
+            for t in ["eq", "ne", "lt", "le", "gt", "ge"] {
+                for inv in 0..2 {
+                    fv_cases.push(format!("sel {t} {inv} plain {} {arg}", wd(w)));
+                }
+            }
+            fv_cases.push(format!("sel eq 0 wrap {} {arg}", wd(w)));
+            fv_cases.push(format!("sel lt 1 wrap {} {arg}", wd(w)));
+            for c in ["seq", "tuple", "iter", "once", "oseq", "map", "omap"] {
+                fv_cases.push(format!("cin {c} {} {arg}", wd(w)));
+            }
+        }
+    }
+    for w in fv_words(3, false).iter() {
+        fv_cases.push(format!("lit {}", wd(w)));
+    }
+    for (u, c) in fv_cases.iter().enumerate() {
+        if mine(u) {
+            writeln!(out, "fv {c}\t{}", fv_run_case(&fv, c)).unwrap();
+        }
+    }
+}
+
+/// sum / zip / chain / items / list / sameas / pycompat methods against the Lean model (as `fv` cases)
+fn gen_xf(out: &mut dyn Write, env: &Environment<'static>, thorough: bool, mine: &dyn Fn(usize) -> bool) {
+    let fv = Fv { env, al: alphabet2(), idents: alphabet2().iter().map(|sp| ident(&build(sp))).collect() };
+    for (k, sp) in fv.al.iter().enumerate() {
+        writeln!(out, "fa {} {}\tok", &LETTERS[k..k + 1], enc(sp)).unwrap();
+    }
+    let wd = |w: &String| if w.is_empty() { "-".to_string() } else { w.clone() };
+    let mut cases: Vec<String> = vec![];
+    // sum: words over the integers of the alphabet (1, 2, 0, u128::MAX, -3, 2^64, i64::MAX, i128::MAX), a string, none
+    let sum_letters: Vec<char> = "029cefgh36".chars().collect();
+    let mut sum_words: Vec<String> = vec![String::new()];
+    let mut cur = vec![String::new()];
+    for _ in 0..(if thorough { 4 } else { 3 }) {
+        let mut next = vec![];
+        for w in &cur {
+            for c in &sum_letters {
+                next.push(format!("{w}{c}"));
+            }
+        }
+        sum_words.extend(next.iter().cloned());
+        cur = next;
+    }
+    for w in &sum_words {
+        cases.push(format!("sum {}", wd(w)));
+    }
+    let w2 = fv_words(2, false);
+    let w1 = fv_words(1, false);
+    let w3: Vec<String> = fv_words(3, false).into_iter().filter(|w| w.len() == 3).step_by(if thorough { 5 } else { 47 }).collect();
+    let bs: Vec<String> = w2.iter().step_by(if thorough { 5 } else { 19 }).chain(w3.iter().step_by(11)).cloned().collect();
+    for a in w2.iter().chain(w3.iter()) {
+        for b in bs.iter() {
+            cases.push(format!("zip {} {}", wd(a), wd(b)));
+            for kind in ["seq", "mixed", "tuple"] {
+                cases.push(format!("chain {kind} {} {}", wd(a), wd(b)));
+            }
+        }
+        for b in w1.iter().step_by(4) {
+            for c in w2.iter().step_by(if thorough { 17 } else { 53 }) {
+                cases.push(format!("zip3 {} {} {}", wd(a), wd(b), wd(c)));
+                cases.push(format!("chain3 {} {} {}", wd(a), wd(b), wd(c)));
+            }
+        }
+        cases.push(format!("items {}", wd(a)));
+        for kind in ["seq", "tuple", "iter", "once", "oseq", "map", "omap", "str", "undef", "none"] {
+            cases.push(format!("list {kind} {}", wd(a)));
+        }
+        for (p, arg) in PLAIN_LETTERS.chars().enumerate() {
+            cases.push(format!("cnt seq {} {arg}", wd(a)));
+            if p % 3 == 0 || thorough {
+                cases.push(format!("cnt tuple {} {arg}", wd(a)));
+                cases.push(format!("cnt oseq {} {arg}", wd(a)));
+            }
+            for meth in ["get", "get2"] {
+                cases.push(format!("pyd {meth} {} {arg}", wd(a)));
+            }
+        }
+        for meth in ["keys", "values", "items"] {
+            cases.push(format!("pyd {meth} {} 0", wd(a)));
+        }
+    }
+    // chained dictionaries: lookups and key iteration
+    for a in fv_words(2, true).iter() {
+        for b in fv_words(2, true).iter().step_by(if thorough { 3 } else { 9 }) {
+            cases.push(format!("chain map {} {}", wd(a), wd(b)));
+        }
+    }
+    // keys that are `Equal` without being `==` (NaN) or `==` in another spelling (1 / 1.0) in both dictionaries
+    for (a, b) in [("7", "7"), ("7", "71"), ("17", "70"), ("0", "1"), ("1", "0"), ("01", "10"), ("8", "9"), ("3", "d")] {
+        cases.push(format!("chain map {a} {b}"));
+    }
+    for a in LETTERS.chars() {
+        for b in LETTERS.chars() {
+            cases.push(format!("sameas {a} {b} diff"));
+        }
+        cases.push(format!("sameas {a} {a} same"));
+    }
+    for (u, c) in cases.iter().enumerate() {
+        if mine(u) {
+            writeln!(out, "fv {c}\t{}", fv_run_case(&fv, c)).unwrap();
+        }
+    }
+}
+
+fn main() {
+    quiet_panics();
+    let args: Vec<String> = std::env::args().collect();
+    let out = std::io::stdout();
+    let mut out = std::io::BufWriter::new(out.lock());
+    let env = tpl_env();
+    match args.get(1).map(|s| s.as_str()) {
+        Some("zoo") => {
+            for (k, s) in zoo(args.get(2).map_or(false, |t| t == "thorough")).iter().enumerate() {
+                writeln!(out, "{k} {} {:?}", enc(s), build(s)).unwrap();
+            }
+        }
+        Some("gen") => {
+            let thorough = args.get(2).map_or(false, |t| t == "thorough");
+            match args.get(3).map(|x| x.as_str()) {
+                None | Some("all") => {
+                    for part in PARTS {
+                        gen_part(&mut out, &env, thorough, part);
+                    }
+                }
+                Some(part) => gen_part(&mut out, &env, thorough, part),
             }
         }
         Some("one") => {
